@@ -1278,6 +1278,9 @@ func (p *constructPlan) Execute(ctx context.Context) (*table.Table, error) {
 	// The buffered channel has capacity to accommodate twice the amount of triples stored in a single call.
 	tripChan := make(chan *triple.Triple, 2*p.bulkSize)
 	done := make(chan bool)
+	// uErr is the first error reported by the driver while writing; it is only
+	// read after done has been signaled.
+	var uErr error
 
 	go func() {
 		var ts []*triple.Triple
@@ -1306,12 +1309,16 @@ func (p *constructPlan) Execute(ctx context.Context) (*table.Table, error) {
 		for elem := range tripChan {
 			ts = append(ts, elem)
 			if len(ts) >= p.bulkSize {
-				update(ctx, ts, p.stm.OutputGraphNames(), p.store, updateFunc)
+				if err := update(ctx, ts, p.stm.OutputGraphNames(), p.store, updateFunc); err != nil && uErr == nil {
+					uErr = err
+				}
 				ts = []*triple.Triple{}
 			}
 		}
 		if len(ts) > 0 {
-			update(ctx, ts, p.stm.OutputGraphNames(), p.store, updateFunc)
+			if err := update(ctx, ts, p.stm.OutputGraphNames(), p.store, updateFunc); err != nil && uErr == nil {
+				uErr = err
+			}
 		}
 		done <- true
 	}()
@@ -1356,6 +1363,9 @@ func (p *constructPlan) Execute(ctx context.Context) (*table.Table, error) {
 	close(tripChan)
 	// Wait until all triples are added to the store.
 	<-done
+	if uErr != nil {
+		return nil, uErr
+	}
 	return tbl, nil
 }
 
